@@ -111,6 +111,8 @@ type World struct {
 	histSoFar []Step
 	// hash reuse (variant runs): the leaf added into slot s carries the hash of the dead leaf of slot reuse[s]
 	reuse map[int]int
+	baStk   []blockArgs // the arguments of the blocks applied so far (for Undo)
+	undoEnc int
 	pcached   map[int]bool
 	evlog   func(any)
 }
@@ -351,6 +353,7 @@ type blockArgs struct {
 	adds    []Hash
 	targets []uint64
 	proof   []Hash
+	enc     bool // a non-canonical encoding of the block proof
 }
 
 func (w *World) blockArgs(st *Step) blockArgs {
@@ -486,6 +489,8 @@ func (w *World) applyMod(st *Step) {
 	}
 	w.nStk = append(w.nStk, w.n)
 	w.n += uint64(st.K)
+	ba.enc = st.Enc != nil && st.Enc.Kind != "canon"
+	w.baStk = append(w.baStk, ba)
 }
 
 func (w *World) checkUpdateData(in *Inst, st *Step, ud *utreexo.UpdateData) {
@@ -560,6 +565,16 @@ func (w *World) applyUndo(st *Step) {
 	proofH := w.sy.Hs(st.Pf.P)
 	prevRoots := w.sy.Hs(st.Pre)
 	w.ctx["C06"] = true
+	if len(w.baStk) > 0 {
+		// a block that was applied in a non-canonical (accepted) encoding of its proof is
+		// undone with that very encoding: "that block's proof"
+		ba := w.baStk[len(w.baStk)-1]
+		w.baStk = w.baStk[:len(w.baStk)-1]
+		if ba.enc {
+			dels, targets, proofH = ba.dels, ba.targets, ba.proof
+			w.undoEnc++
+		}
+	}
 	for _, in := range w.insts {
 		in := in
 		if in.Kind == KStump {
